@@ -322,6 +322,19 @@ where
             props: irs
                 .into_iter()
                 .map(|(prop_name, mut ir)| {
+                    // `any` / `unknown` anywhere in the type: nothing can be checked. Like
+                    // Vue's own compiler keep only what affects prop casting and skip
+                    // the check, or declare no type at all.
+                    let skip_check = ir.types.contains(&Some(atom!("$unknown")));
+                    if skip_check {
+                        ir.types.retain(|ty| {
+                            matches!(ty.as_deref(), Some("Boolean") | Some("Function"))
+                        });
+                        if ir.types.is_empty() {
+                            ir.types.insert(None);
+                        }
+                    }
+                    let skip_check = skip_check && ir.types.iter().all(Option::is_some);
                     let mut props = vec![
                         PropOrSpread::Prop(Box::new(Prop::KeyValue(KeyValueProp {
                             key: PropName::Ident(quote_ident!("type")),
@@ -359,6 +372,15 @@ where
                             }))),
                         }))),
                     ];
+                    if skip_check {
+                        props.push(PropOrSpread::Prop(Box::new(Prop::KeyValue(KeyValueProp {
+                            key: PropName::Ident(quote_ident!("skipCheck")),
+                            value: Box::new(Expr::Lit(Lit::Bool(Bool {
+                                value: true,
+                                span: DUMMY_SP,
+                            }))),
+                        }))));
+                    }
                     if let Some((_, default)) = defaults.iter().flatten().find(|(name, _)| {
                         name.eq_ignore_span(&prop_name)
                             || if let (
@@ -1047,6 +1069,9 @@ where
                 }
                 TsKeywordTypeKind::TsSymbolKeyword => {
                     runtime_types.insert(Some(atom!("Symbol")));
+                }
+                TsKeywordTypeKind::TsAnyKeyword | TsKeywordTypeKind::TsUnknownKeyword => {
+                    runtime_types.insert(Some(atom!("$unknown")));
                 }
                 _ => {
                     runtime_types.insert(None);
